@@ -239,7 +239,11 @@ func c14CheckE2E(u *appx.Universe, cs evx.E2ECase) (sig, msg, class string, res 
 	}
 	typ := "?"
 	if len(res.Raw) > 0 {
-		typ = typeOfName[res.Raw[len(res.Raw)-1].Type]
+		var ts []string
+		for _, r := range res.Raw {
+			ts = append(ts, typeOfName[r.Type])
+		}
+		typ = strings.Join(ts, "+")
 	}
 	if res.DecodeErr != "" {
 		return "C14/e2e-emitted-event-undecodable/" + typ, fmt.Sprintf("%s: the application emitted an event the keyper side rejects: %s\nevents: %v", cs.Desc, res.DecodeErr, res.Raw), "", res
@@ -326,6 +330,27 @@ func baseEvents(s *evx.Sim, thorough bool) []baseEvent {
 		)
 	}
 	return out
+}
+
+// c14Spelling compares, attribute by attribute, the value spelled by an
+// accepted input string (harness's own lenient reading) with the value the
+// decoder returned (read from its canonical re-encoding).
+func c14Spelling(in, re abcitypes.Event, typ string) (sig, msg string) {
+	kinds := evx.AttrKinds[typ]
+	for i, kind := range kinds {
+		if i >= len(in.Attributes) || i >= len(re.Attributes) {
+			return "C14/mis-decode-missing-attribute/" + typ, fmt.Sprintf("attribute %d is missing but the event was accepted", i)
+		}
+		rin, ok := evx.Reading(kind, in.Attributes[i].Value)
+		if !ok {
+			return "C14/mis-decode-accepts-unreadable-string/" + typ, fmt.Sprintf("attribute %d (%s) %q spells no %s value, yet it was accepted and decoded as %q", i, in.Attributes[i].Key, in.Attributes[i].Value, kind, re.Attributes[i].Value)
+		}
+		rout, ok := evx.Reading(kind, re.Attributes[i].Value)
+		if !ok || rin != rout {
+			return "C14/mis-decode-value-differs-from-string/" + typ, fmt.Sprintf("attribute %d (%s) %q spells %s but was decoded as %q", i, in.Attributes[i].Key, in.Attributes[i].Value, rin, re.Attributes[i].Value)
+		}
+	}
+	return "", ""
 }
 
 // matchingPhases: the DKG phase(s) in which the keyper acts on an event type.
@@ -433,6 +458,13 @@ func c14PartCD(c *report.Ctx, s *evx.Sim, unit *int) {
 					fmt.Sprintf("%s\nthe mutated event %v decodes without error to\n  %s\nbut re-encoding that value and decoding again gives\n  %s", full, m, v1, v2),
 					c14Replay{Part: "c", Desc: full, Event: &w, Height: h})
 				c.Stats.Class("(c) mutant decodes to an UNSTABLE value")
+				return
+			}
+			// the accepted strings must spell the value that was returned
+			if sig, msg := c14Spelling(m, re, dtyp); sig != "" {
+				w := toWire(m)
+				c.Violation(sig, fmt.Sprintf("%s\nthe mutated event %v decodes without error to\n  %s\n%s", full, m, v1, msg), c14Replay{Part: "c", Desc: full, Event: &w, Height: h})
+				c.Stats.Class("(c) mutant is MIS-DECODED")
 				return
 			}
 			orig := evx.Norm(evx.WithHeight(b.X, h))
@@ -723,6 +755,9 @@ func c14() *report.Check {
 				}
 				if evx.Norm(x) != evx.Norm(x2) {
 					return fmt.Sprintf("decoded to %s, re-encoded and decoded to %s", evx.Norm(x), evx.Norm(x2))
+				}
+				if sig, msg := c14Spelling(rp.Event.event(), re, evx.TypeName(x)); sig != "" {
+					return fmt.Sprintf("decoded to %s: %s", evx.Norm(x), msg)
 				}
 				return ""
 			case "d":
